@@ -173,11 +173,19 @@ Theorem C20_state_preserved : forall c now msg st st' p,
   s_owner sl' =
     (if match kind_of c with KUpdatable => ver_ltb v (3, 0, 0) | _ => false end
      then s_legacy_minter sl else s_owner sl) /\
+  (* the governance-set minter status is never touched *)
+  s_status sl' = s_status sl /\
   (* factory parameters: only with a supplied message *)
   (p = true -> kind_of c = KFactory /\ msg <> None).
 Proof. exact state_preserved. Qed.
 
-Definition ex_slots_f : slots := mkSlots None None None None None None.
+Definition ex_slots_f : slots := mkSlots None None None None None None None.
+
+(* what governance set with sudo UpdateStatus (verified / blocked / explicit) is the same
+   after every accepted migration, whatever the contract, stored identity and version *)
+Theorem C20_status_preserved : forall c now msg st st' p,
+  migrate c now msg st = Ok (st', p) -> s_status (c_slots st') = s_status (c_slots st).
+Proof. exact status_preserved. Qed.
 
 (* ---- parameters supplied with a factory migration: field by field ----
    `unwrap_or o d` = the supplied value when the field was supplied, else the previous
@@ -287,10 +295,10 @@ Example C20_ex_oe_migrate_keeps_unsupplied_airdrop_bps :
 Proof. vm_compute. reflexivity. Qed.
 
 (* ---- non-vacuity ---- *)
-Definition ex_slots : slots := mkSlots (Some 1700000000000000000) None None None None None.
+Definition ex_slots : slots := mkSlots (Some 1700000000000000000) None None None None None (Some (false, true, true)).
 Example C20_ex_vending_from_3_8_9 :
   migrate VendingMinter 1700000100000000000 None (mkState "crates.io:sg-minter" "3.8.9" ex_slots) =
-  Ok (mkState "crates.io:sg-minter" "3.16.0" (mkSlots (Some 1699956900000000000) None None None None None), false).
+  Ok (mkState "crates.io:sg-minter" "3.16.0" (mkSlots (Some 1699956900000000000) None None None None None (Some (false, true, true))), false).
 Proof. vm_compute. reflexivity. Qed.
 Example C20_ex_vending_from_3_9_0_keeps_anchor :
   migrate VendingMinter 1700000100000000000 None (mkState "crates.io:sg-minter" "3.9.0" ex_slots) =
@@ -304,9 +312,9 @@ Example C20_ex_foreign_refused :
 Proof. vm_compute. reflexivity. Qed.
 Example C20_ex_updatable_from_base :
   migrate Sg721Updatable 1700000100000000000 None
-          (mkState "crates.io:sg721-base" "3.0.5" (mkSlots None None None (Some 5) None (Some 11))) =
+          (mkState "crates.io:sg721-base" "3.0.5" (mkSlots None None None (Some 5) None (Some 11) None)) =
   Ok (mkState "crates.io:sg721-updatable" "3.16.0"
-              (mkSlots None (Some false) (Some false) (Some 1699913700000000000) None (Some 11)), false).
+              (mkSlots None (Some false) (Some false) (Some 1699913700000000000) None (Some 11) None), false).
 Proof. vm_compute. reflexivity. Qed.
 Example C20_ex_factory_keeps_version :
   migrate VendingFactory 5 (Some (mkFmsg false false false)) (mkState "crates.io:vending-factory" "2.1.0" ex_slots) =
@@ -323,6 +331,7 @@ Print Assumptions C20_never_foreign.
 Print Assumptions C20_post_version.
 Print Assumptions C20_post_factory.
 Print Assumptions C20_state_preserved.
+Print Assumptions C20_status_preserved.
 Print Assumptions C20_semver_not_string_order.
 Print Assumptions C20_base_migrate_params_frame.
 Print Assumptions C20_vending_migrate_params_frame.
